@@ -116,7 +116,7 @@ func diffFields(a, b map[string]string) []string {
 func C09(r *vf.Run) {
 	r.Rule = "random 80-byte header contents with the two discriminating bytes forced so versions 1/2/3 are equally covered, inside images of several sizes, parsed by fresh ROM/Header objects and by objects that parsed a different header (of another version) just before; every field compared by name against an independent offset table; all 80x255 single-byte perturbations of base headers; a cell is (version, image-size class) or (version, perturbed offset)"
 	r.Assume = []string{"header lives at file offset $7FB0 (NewROM's HeaderOffset)"}
-	sizes := []int{0x8000, 0x8000 + 1, 0x8000 + 0x123, 0x10000, 0x100000}
+	sizes := []int{0x8000, 0x8000 + 1, 0x8000 + 0x123, 0x10000, 0x100000, 0x8000 + 0x200, 0x10000 + 0x200, 0x8000 + 0x1FF}
 
 	mkHeader := func(g *vf.Rng, ver int) []byte {
 		raw := g.Bytes(80)
